@@ -122,7 +122,13 @@ class Engine:
     # ------------------------------------------------------------------ decisions
     def decide(self, e):
         if self.mode != 'sym':
-            raise RuntimeError('decide in concrete mode')
+            # concrete replay: oracles written over SymChar constants only produce literal conditions
+            e = z3.simplify(e)
+            if z3.is_true(e):
+                return True
+            if z3.is_false(e):
+                return False
+            raise RuntimeError('symbolic decision in concrete mode')
         e = z3.simplify(e)
         if z3.is_true(e):
             return True
@@ -310,7 +316,7 @@ class Engine:
         if isinstance(cond, SymBool):
             cond = cond.e
         if self.mode == 'conc':
-            ok = bool(cond)
+            ok = self.decide(cond) if z3.is_expr(cond) else bool(cond)
             self.checks.append((label, 'ok' if ok else 'cex', None))
             if not ok:
                 self.conc_failed.append(label)
